@@ -124,6 +124,28 @@ CLAIMED["C19"] = dict(
     technique="bounded-exhaustive program enumeration with per-program translation validation on a reference machine for the target IR",
 )
 
+CLAIMED["C06"] = dict(
+    category="model_checking",
+    text="All 126 host roles: (1) table agreement (arity vs declared classifier vs stack-IR table, names); (2) each role executed through Computation::Prim on a live Runtime with the full cross product of per-atom boundary domains read off its declared classifier (21k calls quick), generic oracle = exactly the declared arguments consumed and a result / continuation selection of the declared shape, plus an independent Vec<char> reference for the 16 text/bytes/char roles; (3) explicit-state exploration of every I/O operation sequence of length <= 3 (thorough 4) over a 25-operation alphabet on one live runtime against a handle/file model (closed handles stay closed, failures on the error continuation with the predicted kind, bytes equal the model); (4) for every role, the declared signature rendered to source is accepted and runs, and every one-position mutation of the classifier tree (6.4k mutants), relabelling to other roles and duplication is rejected. Decides the property on these domains; argument values outside the boundary domains and OS-level I/O failures other than missing path / closed handle are not covered.",
+    design_ref="C06",
+    note="Trusts the harness's reading of the classifier (BuiltinOperationAbi::for_role is the declared type; lib/std/builtin.zy is tied to it by the repository's own acceptance of the standard library, exercised by every corpus program) and the marker-thunk decoding of continuation selection.",
+    technique="exhaustive enumeration of roles x boundary argument tuples, of all short I/O operation sequences against a reference model, and of all one-position signature mutations, on the real code",
+)
+CLAIMED["C07"] = dict(
+    category="exploration",
+    text="(a) Probes: 33 binding forms x 5 enclosing layers x 4 providers of a same-named outer binding, plus block/boundary probes: the reference scoping discipline predicts which binder an occurrence denotes and the real resolver+checker+interpreter must agree (observable through distinct literal values). (b) Renaming: every program of the universe printed under four naming strategies (all fresh; one name for everything the scoping rules allow; a 3-name pool; binders named after types used in their own annotations) must be accepted alike and produce the same output and result. Exhaustive below the universe bound (quick tier: every 3rd program for renaming).",
+    design_ref="C07",
+    note="Trusts the printer's capture-avoidance computation (which names a binder may take without capturing a later use), itself validated by agreement on the unchanged tree.",
+    technique="bounded-exhaustive enumeration of scoping probes and of alpha-variants of every universe program, differential oracle between variants on the real pipeline",
+)
+CLAIMED["C20"] = dict(
+    category="exploration",
+    text="Every Ret-rooted program of the universe's effect-free menus is placed in a monadic frame (local Monad and Algebra structures passed through the repository's monadic-block elaboration) for the identity monad and for a continuation monad, and the elaborated program's observable result on the real pipeline must equal the direct program's result and the reference evaluator's. Exhaustive below the bound; other monads and the primitive-effect boundary are not covered.",
+    design_ref="C20",
+    note="Trusts the two hand-written monad/algebra structures (validated by mass agreement) and the reference evaluator.",
+    technique="bounded-exhaustive program enumeration, differential oracle between direct and monadically elaborated execution on the real pipeline",
+)
+
 NOT_YET = {}
 
 def main():
